@@ -76,6 +76,7 @@ class BinaryRecallAtFixedPrecision(Metric[tuple[torch.Tensor, torch.Tensor]]):
         _binary_recall_at_fixed_precision_update_input_check(
             input, target, self.min_precision
         )
+        input, target = input.detach(), target.detach()
         self.inputs.append(input)
         self.targets.append(target)
         return self
@@ -163,6 +164,7 @@ class MultilabelRecallAtFixedPrecision(
         _multilabel_recall_at_fixed_precision_update_input_check(
             input, target, self.num_labels, self.min_precision
         )
+        input, target = input.detach(), target.detach()
         self.inputs.append(input)
         self.targets.append(target)
         return self
